@@ -540,11 +540,16 @@ def ghost (g : G) (i : In) (m' : Mgr) (out : Out) : G :=
     | _ => { g with m := m', log := log }
   | .evEstablished p ep ok =>
     let owed1 := (cancelled out.calls).foldl (fun l c => dropOwed c l) (dropOwed ep.conn g.owed)
-    if Call.accept ep.conn ∈ out.calls ∧ ok then
-      { g with m := m', log := log, fresh := g.fresh.filter (· ≠ ep.conn),
-               owed := ⟨ep.conn, .accepting, p⟩ :: owed1,
-               live := addLive ⟨p, ep.conn, ep.isListener⟩ g.live,
-               ledger := recarry (cancelled out.calls) ep.conn g.ledger }
+    if Call.accept ep.conn ∈ out.calls then
+      if ok then
+        { g with m := m', log := log, fresh := g.fresh.filter (· ≠ ep.conn),
+                 owed := ⟨ep.conn, .accepting, p⟩ :: owed1,
+                 live := addLive ⟨p, ep.conn, ep.isListener⟩ g.live,
+                 ledger := recarry (cancelled out.calls) ep.conn g.ledger }
+      else
+        -- `accept` failed: the manager rolls the connection back (releases the id)
+        { g with m := m', log := log, fresh := g.fresh.filter (· ≠ ep.conn), owed := owed1,
+                 live := dropLive ep.conn g.live }
     else
       { g with m := m', log := log, fresh := g.fresh.filter (· ≠ ep.conn), owed := owed1 }
   | .evOpened c _ _ =>
@@ -558,7 +563,10 @@ def ghost (g : G) (i : In) (m' : Mgr) (out : Out) : G :=
   | .evClosed _ c => { g with m := m', log := log, live := dropLive c g.live }
   | .acceptResult c ok =>
     { g with m := m', log := log, owed := dropOwed c g.owed,
-             live := if ok then g.live else dropLive c g.live }
+             -- a failed accept future rolls its connection back (visible as `acc` going down)
+             live := if ok then g.live
+                     else if (findAccept c g.m.pendingAccept).isSome then dropLive c g.live
+                     else g.live }
 
 def gstep (g : G) (i : In) : G × Out :=
   ((ghost g i (step g.m i).1 (step g.m i).2), (step g.m i).2)
